@@ -319,7 +319,7 @@ def check_C06(ctx):
         report_mismatches(ctx, summ, "a rejected hit-object line has an effect (alphabet %s)" % a)
     # timing section: Reject is a stutter in TimingLines; the replay compares the lists
     f = timing_cases(ctx, "AlphaShape", "GensTwo", 3 if thorough else 2)
-    summ = harness(ctx, ["timing", "replay", "--spellings", "2"], cases_file=f, name="timing-replay", timeout=3600)
+    summ = harness(ctx, ["timing", "replay", "--prop", "C06", "--spellings", "2"], cases_file=f, name="timing-replay", timeout=3600)
     report_mismatches(ctx, summ, "a rejected timing line has an effect")
     ctx.assumptions += ["key/value, event and colour sections are covered by the C11 check (Records), which asserts the same stutter property"]
     return finish(ctx, "model_checking",
